@@ -186,12 +186,28 @@ Qed.
 (* ---------- reproducibility ---------- *)
 (* FULL statement: the whole `--help` run is a function of the definition (no dependence on the oracle).
    It follows from the regenerated fact "option_strings de-duplicates through an order-preserving container". *)
+Lemma entry_of_true ah tok ad st p1 p2 c D f :
+  entry_of ah tok ad st true p1 c D f = entry_of ah tok ad st true p2 c D f.
+Proof. reflexivity. Qed.
+
+Lemma cli_help_of_true sk ah tok ad st p1 p2 hs ho c pre cfgf s :
+  cli_help_of sk ah tok ad st true p1 hs ho c pre cfgf s = cli_help_of sk ah tok ad st true p2 hs ho c pre cfgf s.
+Proof.
+  unfold cli_help_of. destruct s as [F'|e]; reflexivity.
+Qed.
+
+Lemma ordered_opts_true p c f : ordered_opts true p c f = option_strings c f.
+Proof. reflexivity. Qed.
+
 Theorem deterministic_full :
   option_order_preserved_gen = true ->
   forall p1 p2 c m pre cfgf F, run_cli_help_gen p1 c m pre cfgf F = run_cli_help_gen p2 c m pre cfgf F.
 Proof.
   intros H p1 p2 c m pre cfgf F.
-  unfold run_cli_help_gen, resolver_gen, ordered_opts_gen. rewrite H. reflexivity.
+  unfold run_cli_help_gen, run_cli_help, resolver_gen, ordered_opts_gen. rewrite H.
+  change (ordered_opts true p1 c) with (option_strings c).
+  change (ordered_opts true p2 c) with (option_strings c).
+  apply cli_help_of_true.
 Qed.
 
 Definition W_ab : list hwrap := [mkhw "K" ["a"] [mkhf (mkfw ["a"] "bb" "" ["cc"] false) true true "" (Some "1")]].
@@ -224,8 +240,8 @@ Theorem accepted_set_refuted :
     /\ In "--cd" (accepted_of (run_cli_help_gen p1 c m [] [] F))
     /\ ~ In "--cd" (accepted_of (run_cli_help_gen p2 c m [] [] F)).
 Proof.
-  intros H. exists (@rev string), (fun l => l), default_cfg_parser, CRAuto, W_clash.
-  split; [exact valid_rev|]. split; [exact valid_id|].
+  intros H. exists (fun l => l), (@rev string), default_cfg_parser, CRAuto, W_clash.
+  split; [exact valid_id|]. split; [exact valid_rev|].
   unfold run_cli_help_gen, resolver_gen, ordered_opts_gen. rewrite H. vm_compute.
   split; [tauto|]. intros E. repeat (destruct E as [E|E]; [discriminate E|]). exact E.
 Qed.
